@@ -292,4 +292,21 @@ PROPS = {
                         "CancellationToken::cancelled() is ready iff the token is cancelled; TaskTracker::wait() returns once the tracker is closed and empty",
                         "suspension points inside handle() erased (R1): what happens between two polls of the accept loop is atomic in the model"],
     },
+    "C16": {
+        "units": ["U9", "U11"],
+        "level": "proof",
+        "witness": [(r".", "stall")],
+        "sweep": ["stall"],
+        "explanation": "The part of C16 that is a statement about code: the accept loop's task must never wait for a client. `Listener::handle` is extracted with the block "
+                       "handed to `tracker.spawn` marked (R14: vx_task_begin()); every wait on a client's socket that the model knows (the PROXY header read "
+                       "`ProxiedStream::create_from_tokio`, stream.read*, tokio::io::copy) and tokio::time::sleep require either the connection's own task or the connection "
+                       "deadline, and nothing before the spawn point establishes either. `Listener::listen` (U11) awaits only accept / cancellation and `handle`. Proved for "
+                       "everything except the PROXY header read, which happens in the accept loop's task without a deadline: an open known finding (replayed: with the PROXY "
+                       "protocol on, one silent client keeps a later, well-behaved client from being served). Whether tokio then schedules the per-connection tasks fairly is "
+                       "outside what a contract can say.",
+        "not_covered": ["fair scheduling of the spawned per-connection tasks (tokio runtime)", "latency bounds as such (wall clock)",
+                        "the write side: `stream.shutdown()` of a refused connection runs in the accept loop's task (no data was written before it)"],
+        "assumptions": ["R14: the block passed to tracker.spawn runs in its own task; everything before it in handle() runs in the accept loop's task",
+                        "the socket waits known to the model are the only client-dependent waits (an unknown call does not compile: exit 2)"],
+    },
 }
